@@ -67,6 +67,15 @@ class Protocol(Component):
             yield Value(event, self)
 
         else:
+            if hasattr(event, 'remote_finish'):
+                # this event object has completed a round trip before (a retry,
+                # or the same event sent to another peer): forget that answer,
+                # wait for the answer to this call and do not append to the old one
+                del event.remote_finish
+                vars(event).pop('errors', None)
+                if isinstance(getattr(event, 'value', None), Value) and event.value.result:
+                    event.value = Value(event, self)
+
             id = self.__nid
             self.__nid += 1
 
